@@ -3,6 +3,9 @@ import Asts.Driver.Reconcile
 import Asts.Driver.Sync
 import Asts.Driver.World
 import Asts.Driver.Events
+import Asts.Driver.Upgrade
+import Asts.Driver.PodControl
+import Asts.Driver.Watch
 open Asts.Driver
 
 /-- one input line `<case> => <impl observation>`; one output line `<model observation>\t<monitor verdict>\t<branch tag>` -/
@@ -16,6 +19,10 @@ def dispatch (engine : String) (line : String) : String :=
     | "world" => stepWorld cas obs
     | "events" => stepEvents cas obs
     | "events-pinned" => stepEventsPinned cas obs
+    | "upgrade" => stepUpgrade cas obs
+    | "podcontrol" => stepPodControl cas obs
+    | "watch" => stepWatch cas obs
+    | "watchpinned" => stepWatchPinned cas obs
     | _ => "unknown-engine\tok\tbad"
   | _ => "bad-line\tok\tbad"
 
